@@ -165,6 +165,10 @@ def replay_guard(mode, armed, noc):
 
 def replay_from_json(d):
     rp = d['replay']
+    if rp.get('which') == 'kill_preemption':
+        r = replay_kill_preemption()
+        print(r['detail'])
+        return 1 if r['replayed'] else 0
     log = run_native(rp['script'], rp.get('sup', True), rp.get('sup_dead', False), rp.get('named', False), rp['meta'].get('abort_after_entries'), rp.get('thread_local', False), rp['meta'].get('abort_now', False))
     bad, tr = evaluate(rp['prop'], log, rp['meta'], rp.get('sup', True))
     print('native log:', log)
@@ -202,3 +206,23 @@ def replay_start_cancelled(named, links=False):
     if kv.get('send_refused') != '1':
         bad.append('a message is still accepted by the cancelled actor')
     return bad, log
+
+
+def replay_kill_preemption():
+    """a kill that is waiting when the actor task is next polled pre-empts the suspended callback: a handler (and post_start) that ticks between yields is
+    killed from outside while it is suspended - it must not tick again after kill() returned"""
+    bad, logs = [], {}
+    for label, script in (('handle', 'pre_start/ok/0/;post_start/ok/0/msg;handle/ok/8/ticks'), ('post_start', 'pre_start/ok/0/;post_start/ok/8/ticks')):
+        out, lines, rc, err = native.run('life', script=script, sup=1, sup_dead=0, named=0, kill_after_ticks=2, timeout=30)
+        if rc != 0:
+            raise RuntimeError('native life failed: ' + err[-300:])
+        log = [x for x in out.get('log', '').split(',') if x]
+        logs[label] = log
+        if 'killed_externally' not in log:
+            bad.append('%s: the kill was not delivered: %s' % (label, log))
+            continue
+        after = log[log.index('killed_externally') + 1:]
+        late = [x for x in after if x.startswith(('tick:', 'end:', 'start:'))]
+        if late:
+            bad.append('%s went on after kill() had returned: %s' % (label, late))
+    return {'replayed': bool(bad), 'detail': 'native scripted actor killed from outside while a ticking callback is suspended: %s' % (bad or logs), 'replay': {'which': 'kill_preemption'}}
